@@ -93,6 +93,15 @@ CLAIMED = {
         "every run. Does not decide XPath's own matching semantics nor which attribute each setter uses beyond make_xpath_query's table.",
         "Trusted: lxml XPath evaluation; XPath 1.0 has no escape inside literals; callees resolved by name for derived sinks (only unambiguous names).",
         "DESIGN.md §4 C14"),
+    "C15": (
+        "interprocedural XML-mutation effect analysis (worklist fixpoint over function summaries with kind inference, root/freshness tracking and flag-constant contexts) from every read-only entry point",
+        "Decides the mechanism of the property for all ~440 read-only entry points enumerated from the current source (getters, searches, exports, "
+        "string conversion, serialisation, replace() without a replacement): no lxml write and no write to the container's part table outside the "
+        "lazy loaders is reachable on a value that is not fresh, under the default flags. Also checks that the Markdown export resets its module state "
+        "on every normal path. Does not decide byte-for-byte equality under lxml's own lazy behaviours, nor exceptions leaving module state set.",
+        "Trusted: lxml read accessors are pure; Python-level caches are not content; three frozen get-or-create / lazy-load exceptions; "
+        "calls on receivers of unknown kind with ambiguous method names are counted as unresolved, not reported.",
+        "DESIGN.md §4 C15"),
     "C17": (
         "CFG dominance/control-dependence on set_span; set_span/del_span table agreement; guard analysis of the strip loops; table-object-model end state of the bulk edits",
         "Partial, structural. Decides that set_span checks the whole area for an existing span before any write and changes values only under "
